@@ -1,28 +1,41 @@
 #!/usr/bin/env python3
-"""MANIFEST.setup_cmd: build the whole Coq development (full .vo), extract, build all OCaml drivers."""
-import sys, os, glob
+"""MANIFEST.setup_cmd: build the Coq development of every claimed property (full .vo), extract,
+build the OCaml drivers.  Files of properties that are still under construction (not listed in
+tools/claimed.txt) are not built here; `make -C coq all` builds everything."""
+import sys, os, glob, importlib
 sys.path.insert(0, os.path.dirname(os.path.abspath(__file__)))
 import vlib
 
+
 def main():
+    claimed = [l.strip() for l in open(os.path.join(vlib.VERIF, "tools", "claimed.txt")) if l.strip() and not l.startswith("#")]
+    targets, drivers = [], []
+    for pid in claimed:
+        mod = importlib.import_module("props." + pid.lower())
+        targets += getattr(mod, "COQ_TARGETS", ["Properties_%s.vo" % pid, "Extract_%s.vo" % pid])
+        drivers += getattr(mod, "DRIVERS", [pid.lower()])
+        pre = getattr(mod, "pre_setup", None)
+        if pre:
+            pre()
     vlib.gen_coqproject()
-    ok, log = vlib.coq_make(["all"], keep_going=False, timeout=7200)
+    ok, log = vlib.coq_make(sorted(set(targets)), keep_going=False, timeout=7200)
     if not ok:
         print(log)
         print("SETUP: Coq build failed")
         return 1
-    bad = vlib.grep_forbidden()
+    closure = set(vlib.coq_dep_closure([t[:-1] for t in targets]))
+    bad = vlib.grep_forbidden(only=closure)
     if bad:
         print("SETUP: forbidden constructs:", bad)
         return 1
     rc = 0
-    for d in sorted(glob.glob(os.path.join(vlib.OCAML, "drv_*.ml"))):
-        prop = os.path.basename(d)[4:-3]
+    for prop in sorted(set(drivers)):
         ok, exe, err = vlib.build_driver(prop)
         print("driver", prop, "ok" if ok else "FAILED\n" + err)
         rc |= 0 if ok else 1
-    print("SETUP: done")
+    print("SETUP: done (%d properties, %d Coq files)" % (len(claimed), len(closure)))
     return rc
+
 
 if __name__ == "__main__":
     sys.exit(main())
